@@ -368,6 +368,15 @@ fn reply_part(rep: &Reporter, args: &Args) {
             q2.extend_from_slice(&[58, 0, 1, 4, 0, 0, 0, 0]);
             q2.extend_from_slice(&req);
             cases.push(("v6 unreachable quoting a packet with a hop-by-hop header".into(), true, icmp_msg(1, 0, [0; 4], &q2), Some((1, 0)), true));
+            // a large echo request is fragmented by the sender's stack: the error quotes the first fragment, whose Fragment
+            // header (8 bytes, next header 58) sits between the IPv6 header and the echo request: MUST be matched
+            for ident in [0u32, 0x80, 0x1234_5680, 0xffff_ffff] {
+                let mut q5 = ipv6_header(44, 8 + req.len());
+                q5.extend_from_slice(&[58, 0, 0, 1]);
+                q5.extend_from_slice(&ident.to_be_bytes());
+                q5.extend_from_slice(&req);
+                cases.push((format!("v6 time exceeded quoting the first fragment of the request (fragment id {:#x})", ident), true, icmp_msg(3, 0, [0; 4], &q5), Some((3, 0)), false));
+            }
             // crafted extension length running past the end of the quote: must not panic, must not be reported
             let mut q3 = ipv6_header(0, 8);
             q3.extend_from_slice(&[58, 200, 0, 0, 0, 0, 0, 0]);
